@@ -2,8 +2,8 @@
 from .. import machine as M
 from ..core import hx, unhx
 
-DRIVERS = ["drv_machine", "drv_text"]
-GENERATED = ["Handlers", "Markers"]
+DRIVERS = ["drv_machine", "drv_text", "drv_ansi"]
+GENERATED = ["Handlers", "Markers", "Ingest", "VteTable", "AnsiSgr", "RawLine"]
 
 WORDS = ["On", "branch", "main", "Your", "is", "up", "to", "date", "with", "origin/main.", "nothing", "commit,", "working",
          "tree", "clean", "Merge:", "Author:", "Date:", "Signed-off-by:", "日本語", "ünï", "émoji😀", "x=1;", "a\tb", "\ttabbed",
@@ -109,10 +109,16 @@ def run(ctx, rep):
             else:
                 sig = "passthrough-altered:" + shape
             rep.violation(sig, f"line {k} {lines[k]!r} was not passed through unchanged (written: {chunk[-120:]!r})", dict(case, line=k))
+    # 3. ingest_line: model DeltaModel/Ingest.lean, hook machine.ingest, binary pass-through (b-ansi, vlib/ingest.py)
+    from .. import ingest
+    ingest.ingest_check(ctx, rep)
 
 
 def replay(ctx, rep, obj):
     c = obj["case"]
+    if str(c.get("kind", "")).startswith("ingest-"):
+        from .. import ingest
+        return ingest.ingest_replay(ctx, rep, c)
     cfg = M.VCfg(**c["model_cfg"])
     lines = c["input"].split("\n")
     impl, model = M.observe(ctx, [(cfg, [l.encode("utf-8", "surrogateescape") for l in lines])])[0]
